@@ -27,6 +27,18 @@ type e1Machine struct {
 	params   E1Params
 	restores int
 	isTwin   bool
+	// fresh instances made ready before the history starts, for the restore steps: an application that restores
+	// several replicas creates its instances first and imports afterwards, so nothing lies between two imports
+	spares [][]*Replica
+	// shadows: at every restore a second fresh instance imports the same export right after the first and is then left
+	// alone; whatever the history does to the first, the second must keep showing what it imported
+	shadows []shadow
+}
+
+type shadow struct {
+	rep        *Replica
+	of         int
+	view, snap string
 }
 
 type twinStep struct {
@@ -53,6 +65,18 @@ func newE1(params json.RawMessage) *e1Machine {
 		m.oracles[o] = true
 	}
 	m.prevOrder = make([]map[string][]string, p.N)
+	if m.oracles["restore"] {
+		n := p.MaxSkips
+		if n == 0 {
+			n = 1
+		}
+		m.spares = make([][]*Replica, p.N)
+		for k := 0; k < 2*n; k++ { // two per restore: the restored instance and its shadow
+			for i, r := range m.w.reps {
+				m.spares[i] = append(m.spares[i], newReplica(50+i, m.w.typ, false, r.mode))
+			}
+		}
+	}
 	if p.Prefix != "" {
 		runPrefix(m.w, p.Prefix)
 	}
@@ -438,6 +462,16 @@ func (m *e1Machine) Enabled() []pt.Action {
 					as = append(as, pt.Action{Op: "tx", R: i, Sub: []pt.Action{bad}}, pt.Action{Op: "tx", R: i, Sub: []pt.Action{calls[0], bad}})
 				}
 			}
+			if m.w.reps[i].txhUsable() {
+				// transactions opened on a handle that was taken inside an earlier, finished transaction
+				hp := pt.Action{Op: "dput", R: i, K: "hx", V: "p"}
+				for _, b := range [][]pt.Action{{hp}, {hp, hp}} {
+					as = append(as, pt.Action{Op: "tx", R: i, T: "@txh", Sub: b})
+					if maySkip {
+						as = append(as, pt.Action{Op: "tx", R: i, T: "@txh", Sub: b, Fail: true})
+					}
+				}
+			}
 			for _, c := range calls {
 				bodies := [][]pt.Action{{c}, {c, calls[0]}}
 				if inv, ok := invalidCall(m.w, i); ok {
@@ -465,7 +499,15 @@ func (m *e1Machine) Enabled() []pt.Action {
 func (m *e1Machine) Key() (string, bool) {
 	k, nt := m.w.Key()
 	if n := m.skips(); n > 0 {
-		k = fmt.Sprintf("%s:s%d:r%d", k, n, m.restores)
+		// which replicas run on a restored instance is part of the state: two restored replicas may share what the import
+		// built for them, one restored twice does not
+		mask := 0
+		for _, st := range m.hist {
+			if st.a.Op == "restore" {
+				mask |= 1 << uint(st.a.R)
+			}
+		}
+		k = fmt.Sprintf("%s:s%d:r%d:m%d", k, n, m.restores, mask)
 	}
 	return k, nt
 }
@@ -1071,6 +1113,12 @@ func diffField(a, b string) string {
 
 // checkTwin compares the world with its twin (history without failed transactions / restores).
 func (m *e1Machine) checkTwin(a pt.Action) *pt.Violation {
+	for _, sh := range m.shadows {
+		_, s2 := sh.rep.Export()
+		if v := sh.rep.View(); v != sh.view || s2 != sh.snap {
+			return viol("C10:restored-instances-share-state:"+m.w.P.Type, "after %s: a second instance that imported the same export as replica %d's restored instance, and has not been touched since, changed:\n at import: %s\n now:       %s", a, sh.of, sh.view, v)
+		}
+	}
 	need := false
 	for _, st := range m.hist {
 		if st.skip {
@@ -1230,7 +1278,12 @@ func (m *e1Machine) restore(i int) *pt.Violation {
 	if err != nil {
 		return viol("C10:export-failed", "replica %d export: %v", i, err)
 	}
-	nr := newReplica(50+i, m.w.typ, false, old.mode) // subscribe-style: empty buffer
+	var nr *Replica // subscribe-style: empty buffer
+	if i < len(m.spares) && len(m.spares[i]) > 0 {
+		nr, m.spares[i] = m.spares[i][0], m.spares[i][1:]
+	} else {
+		nr = newReplica(50+i, m.w.typ, false, old.mode)
+	}
 	var perr interface{}
 	var ierr error
 	func() {
@@ -1244,6 +1297,17 @@ func (m *e1Machine) restore(i int) *pt.Violation {
 	}
 	if ierr != nil {
 		return viol("C10:import-failed", "import of replica %d's export failed: %v", i, ierr)
+	}
+	if !m.isTwin && i < len(m.spares) && len(m.spares[i]) > 0 {
+		var sh *Replica
+		sh, m.spares[i] = m.spares[i][0], m.spares[i][1:]
+		func() {
+			defer func() { recover() }() // a failing import was reported above
+			if e := sh.dt.SetMetaAndSnapshot(meta, snap); e == nil {
+				_, s2 := sh.Export()
+				m.shadows = append(m.shadows, shadow{rep: sh, of: i, view: sh.View(), snap: s2})
+			}
+		}()
 	}
 	// the imported state is the instance's new rollback point, as on every import path of the SDK (a subscriber that
 	// received its first state re-takes the point, and so does a rollback after its own import); the import call alone
